@@ -6,6 +6,10 @@ ALL = ["C%02d" % i for i in range(1, 21)]
 
 CODEC_NOTE = "Trusted: the reflection bridge (identity-checked on every case), the schema universe and alphabets, the reference codecs, the Go toolchain. Schemas enter as the generator's intermediate JSON (the Java parser is absent). Small-scope bounds: depth <= 2 (3 on spines), <= 5 entries, strings <= 2 chars over the metacharacter set + tokens."
 CHECKS = {
+ "C14": dict(engine="enumx", category="model_checking", design="§3 C14",
+   technique="exhaustive enumeration of verb x query x body x threshold through the real tunnelling encoder / client request builders, net/http serialisation + server-side parsing and the real decoder, compared field by field with the untunnelled request; enumerated malformed tunnelled requests against a server with stub resource code",
+   text="4 verbs x 24 queries (escaped metacharacters, CR/LF, boundary-looking text, 300-byte) x 7 bodies (absent, JSON with boundary-like lines, 64 KB) at function level; client builders with thresholds {0,1,len-1,len,len+1,10^6}: tunnelled iff len(query) > threshold > 0, otherwise byte-identical to the plain request; 14 malformed tunnelled requests must yield 400 without touching resource code. Both generations.",
+   note="Trusted: net/http serialisation/parsing, hand-built malformed requests. The random multipart boundary is not owned and never inspected."),
  "C15": dict(engine="enumx", category="model_checking", design="§3 C15",
    technique="exhaustive product of a base-URL grammar x encoded resource paths x queries through the real NewGetRequest / NewJsonRequest, against a reference URL construction; wire request line included",
    text="5 scheme/host combinations x 85 context paths (0-3 segments over {root, root+suffix, prefix-of-root, other}) x trailing slash x 61 resource paths (20 key contents incl. %XX, dot segments, ; ? # and reserved characters at one and two key positions) x 10 queries x 2 request kinds = 2.07e6 request constructions per run; scheme, host, escaped path, raw query, String() re-parse and the request target as written to the wire must equal the reference construction.",
